@@ -41,7 +41,7 @@ BOUNDS = {
     "thorough": "depth-3 family over all operator pairs, both builds",
 }
 OUTSIDE = "assignment statements NAME = expr; programs deeper than 3; real libm functions (uninterpreted here)"
-REQUIRED_CLASSES = ["programs", "after_change", "zero_division", "python_mirror", "attr_mode", "bound_variable"]
+REQUIRED_CLASSES = ["programs", "after_change", "zero_division", "python_mirror", "attr_mode", "bound_variable", "cross_spelling"]
 PROFILE_CASES = 3
 TASKS_PER_CHILD = 20
 
@@ -228,6 +228,12 @@ def run_case(ex, case):
         vref, eref = env._vref, env._eref
         k1 = lambda: E["q1"]["k1"]
         setk1 = lambda v: eref["q1"].__setitem__("k1", v)
+        if case.get("cross"):
+            # the element type MadxEnv.read_state stores answers to both spellings; the element
+            # attribute is changed through the spelling the expression was NOT built with
+            E["q1"] = xd.utils.AttrDict(k1=E["q1"]["k1"])
+            setk1 = lambda v: setattr(eref["q1"], "k1", v)
+            note(ex, "cross_spelling")
     else:
         note(ex, "attr_mode")
         from collections import defaultdict
@@ -244,6 +250,10 @@ def run_case(ex, case):
         madeval = MX.MadxEval(V, F, E, get="attr").eval
         k1 = lambda: E["q1"].k1
         setk1 = lambda v: setattr(eref["q1"], "k1", v)
+        if case.get("cross"):
+            E["q1"] = xd.utils.AttrDict(k1=q1.k1)
+            setk1 = lambda v: eref["q1"].__setitem__("k1", v)
+            note(ex, "cross_spelling")
     V["a"] = ex.real("a")
     V["b.c"] = ex.real("bc")
     sp = case["sp"]
@@ -333,4 +343,8 @@ def cases(tier):
             out.append({"build": b, "tier": tier, "lo": lo, "hi": min(n, lo + chunk), "mode": "item", "sp": "", "change_every": 1})
         for lo in range(0, n, chunk * 4):
             out.append({"build": b, "tier": tier, "lo": lo, "hi": min(n, lo + chunk), "mode": "attr", "sp": " ", "change_every": 2})
+        for lo in range(chunk, n, chunk * 4):
+            out.append({"build": b, "tier": tier, "lo": lo, "hi": min(n, lo + chunk), "mode": "item", "sp": "", "change_every": 1, "cross": True})
+        for lo in range(2 * chunk, n, chunk * 6):
+            out.append({"build": b, "tier": tier, "lo": lo, "hi": min(n, lo + chunk), "mode": "attr", "sp": "", "change_every": 1, "cross": True})
     return out
